@@ -5,6 +5,7 @@ import (
 	"fmt"
 	"os"
 	"path/filepath"
+	"sort"
 	"strings"
 	"testing"
 
@@ -20,6 +21,7 @@ type Target struct {
 	Pipeline bool `json:"pipeline"`
 	Status   int  `json:"status"`
 	Allow    bool `json:"allow,omitempty"` // task-level allow_failure: the target succeeds anyway
+	Side     bool `json:"side,omitempty"`  // pipeline only: an independent stage that succeeds and finishes last
 }
 
 // TargetsCase is an argv of 1..4 targets in order.
@@ -46,10 +48,16 @@ func runTargets(c TargetsCase, dir string) (vs []Violation) {
 			pre := fmt.Sprintf("pre%d", i)
 			tasks = tasks.Set(pre, gen.Map{{K: "command", V: gen.List{fmt.Sprintf("printf 'PRE:%d\\n' >> %s", i, trace)}}})
 			pn := fmt.Sprintf("p%d", i)
-			pipes = pipes.Set(pn, gen.List{
+			stages := gen.List{
 				gen.Map{{K: "name", V: fmt.Sprintf("a%d", i)}, {K: "task", V: pre}},
 				gen.Map{{K: "name", V: fmt.Sprintf("b%d", i)}, {K: "task", V: tn}, {K: "depends_on", V: gen.List{fmt.Sprintf("a%d", i)}}},
-			})
+			}
+			if tg.Side {
+				side := fmt.Sprintf("side%d", i)
+				tasks = tasks.Set(side, gen.Map{{K: "command", V: gen.List{fmt.Sprintf("sleep 0.25; printf 'SIDE:%d\\n' >> %s", i, trace)}}})
+				stages = append(stages, gen.Map{{K: "name", V: fmt.Sprintf("c%d", i)}, {K: "task", V: side}})
+			}
+			pipes = pipes.Set(pn, stages)
 			argv = append(argv, pn)
 		} else {
 			argv = append(argv, tn)
@@ -71,22 +79,53 @@ func runTargets(c TargetsCase, dir string) (vs []Violation) {
 		fail("binary crashed: exit %d timedOut=%v stderr %q", r.Exit, r.TimedOut, r.Stderr)
 		return
 	}
+	// per target the expected tokens (the independent side stage may finish anywhere inside its target),
+	// targets strictly one after the other, nothing after the first failing one
 	var want []string
 	allOK := true
 	for i, tg := range c.Targets {
+		var grp []string
 		if tg.Pipeline {
-			want = append(want, fmt.Sprintf("PRE:%d", i))
+			grp = append(grp, fmt.Sprintf("PRE:%d", i))
 		}
-		want = append(want, fmt.Sprintf("RUN:%d", i))
-		if tg.Status != 0 && !tg.Allow {
+		grp = append(grp, fmt.Sprintf("RUN:%d", i))
+		failed := tg.Status != 0 && !tg.Allow
+		if !failed {
+			grp = append(grp, fmt.Sprintf("SECOND:%d", i))
+		}
+		if tg.Pipeline && tg.Side {
+			grp = append(grp, fmt.Sprintf("SIDE:%d", i))
+		}
+		sort.Strings(grp)
+		want = append(want, strings.Join(grp, ","))
+		if failed {
 			allOK = false
 			break
 		}
-		want = append(want, fmt.Sprintf("SECOND:%d", i))
 	}
 	data, _ := os.ReadFile(trace)
-	got := strings.Fields(string(data))
-	if strings.Join(got, " ") != strings.Join(want, " ") {
+	var got []string
+	{
+		var grp []string
+		cur := ""
+		flush := func() {
+			if len(grp) > 0 {
+				sort.Strings(grp)
+				got = append(got, strings.Join(grp, ","))
+				grp = nil
+			}
+		}
+		for _, tk := range strings.Fields(string(data)) {
+			idx := tk[strings.Index(tk, ":")+1:]
+			if idx != cur {
+				flush()
+				cur = idx
+			}
+			grp = append(grp, tk)
+		}
+		flush()
+	}
+	if strings.Join(got, " | ") != strings.Join(want, " | ") {
 		fail("targets %v: executed %v, want %v (command-line order, nothing after the first failing target)", argv, got, want)
 	}
 	if (r.Exit == 0) != allOK {
@@ -132,6 +171,7 @@ func TestTargets(t *testing.T) {
 		c := TargetsCase{ViaRun: rapid.Bool().Draw(rt, "via_run")}
 		for i := 0; i < n; i++ {
 			tg := Target{Pipeline: rapid.Bool().Draw(rt, "pipeline")}
+			tg.Side = tg.Pipeline && rapid.Bool().Draw(rt, "side")
 			if rapid.IntRange(0, 2).Draw(rt, "fails") == 0 {
 				tg.Status = rapid.IntRange(1, 255).Draw(rt, "status")
 				tg.Allow = rapid.IntRange(0, 3).Draw(rt, "allow") == 0
